@@ -187,10 +187,42 @@ pub fn check_doc(ctx: &mut Ctx, b: &[u8], seed: u64) {
         if let Some(g) = &guard {
             check_lazy(ctx, "get(guard-page slice)", sonic_rs::get(g.as_slice(), &pn), &w, b, Some(g.as_slice().as_ptr()), p);
         }
+        // a path is anything iterable: iterators whose size hint says nothing (filter: (0, Some(n));
+        // from_fn: (0, None); chain of both) must be walked to the same place as the slice
+        {
+            let it = pn.iter().filter(|_| true);
+            check_lazy(ctx, "get(filter iterator)", sonic_rs::get(st, it), &w, b, base, p);
+            let mut k = 0usize;
+            let it = std::iter::from_fn(|| {
+                k += 1;
+                pn.get(k - 1)
+            });
+            check_lazy(ctx, "get(from_fn iterator)", sonic_rs::get(&ex[..], it), &w, b, base, p);
+            let half = pn.len() / 2;
+            let it = pn[..half].iter().chain(pn[half..].iter().skip_while(|_| false));
+            check_lazy(ctx, "get(&Bytes, chained iterator)", sonic_rs::get(&by, it), &w, b, None, p);
+            if pi % 4 == 0 {
+                let it = pn.iter().filter(|_| true);
+                check_lazy(ctx, "get_unchecked(filter iterator)", unsafe { sonic_rs::get_unchecked(st, it) }, &w, b, base, p);
+                if let Some(l) = &lazy_root {
+                    let got = l.pointer(pn.iter().filter(|_| true));
+                    let want = l.pointer(&pn);
+                    ctx.ops(1);
+                    if got.as_ref().map(|v| v.as_raw_str()) != want.as_ref().map(|v| v.as_raw_str()) {
+                        ctx.fail("pointer-carrier:LazyValue", format!("LazyValue::pointer with a filter iterator gives {:?}, with the slice {:?} (path {:?})", got.map(|v| crate::core::truncate(v.as_raw_str(), 60)), want.map(|v| crate::core::truncate(v.as_raw_str(), 60)), p));
+                    }
+                }
+            }
+        }
         // a path given as an iterator of &str / usize when homogeneous
         if p.iter().all(|e| matches!(e, PathEl::Key(_))) {
             let keys: Vec<&str> = p.iter().map(|e| if let PathEl::Key(k) = e { k.as_str() } else { "" }).collect();
             check_lazy(ctx, "get(&str keys)", sonic_rs::get(st, &keys), &w, b, base, p);
+            // the way a dotted path usually arrives (keys without a NUL, joined and split again)
+            if !keys.is_empty() && keys.iter().all(|k| !k.contains('\u{0}') && !k.is_empty()) {
+                let dotted = keys.join("\u{0}");
+                check_lazy(ctx, "get(split iterator)", sonic_rs::get(st, dotted.split('\u{0}')), &w, b, base, p);
+            }
         }
         if p.iter().all(|e| matches!(e, PathEl::Idx(_))) && !p.is_empty() {
             let idx: Vec<usize> = p.iter().map(|e| if let PathEl::Idx(i) = e { *i } else { 0 }).collect();
